@@ -305,9 +305,10 @@ pub fn anomalies<E: Field>(circuit: &Circuit<E>, events: &[BusEvent], d: usize) 
 
 /// Static look at the rows of the plugin (recompose) tables, for imbalances that only upstream's
 /// lookup debugger / the verifier's terminal-sum check can see: which of the constructs that are
-/// known to unbalance the bus does the circuit contain? Returns e.g.
-/// `recompose/out-also:public`, `recompose-coeff/input-in-2-rows`, or `<flavour>/no-static-cause`
-/// (an imbalance the op list does not explain; never listed as a known finding).
+/// known to unbalance the bus does the circuit contain? Returns `<flavours>/<primary cause>` with
+/// cause `out-multiply-defined` (the row's output slot also has another definer: decomposing an
+/// already defined value makes the recompose row a second creator), `input-reused` (a coefficient
+/// consumed by several rows / twice by one row) or `no-static-cause`.
 pub fn npo_static_cause<E: Field>(circuit: &Circuit<E>) -> String {
     use p3_circuit::Op;
     use p3_circuit::ops::NpoTypeId;
@@ -361,10 +362,16 @@ pub fn npo_static_cause<E: Field>(circuit: &Circuit<E>) -> String {
     if out_rows.values().any(|n| *n >= 2) {
         causes.push("out-of-2+-rows".into());
     }
-    causes.sort();
-    causes.dedup();
+    // one primary cause (full combinations explode: > 200 distinct strings on the pinned tree)
+    let primary = if causes.iter().any(|c| c.starts_with("out-")) || out_rows.values().any(|n| *n >= 2) {
+        "out-multiply-defined"
+    } else if !causes.is_empty() {
+        "input-reused"
+    } else {
+        "no-static-cause"
+    };
     flavours.sort();
-    format!("{}/{}", flavours.join("+"), if causes.is_empty() { "no-static-cause".to_string() } else { causes.join(",") })
+    format!("{}/{primary}", flavours.join("+"))
 }
 
 /// Root-cause class of a bus anomaly at `slot`, from a static look at the op list. Used in
